@@ -20,7 +20,8 @@ RULE = ("histories of 8-30 ops over 1-3 subjects (user:u1, u2, u10, u1x; some ne
         "(1-3 objects each, type-level (key '') and instance-level, over types channel/chan/rack/range and the zero "
         "id; 1-3 actions): create/delete role and policy (also delete-then-recreate with the same key), SetOnRole, "
         "Assign/Unassign, define/delete subject, making the Users group a parent of subjects / policies (non-role "
-        "parents must grant nothing), begin/commit/abort, interleaved with Enforce requests (0-3 objects "
+        "parents must grant nothing), begin/commit/abort (30% of the histories on an ontology whose relationship indexes failed to populate at "
+        "open, i.e. on the raw-scan fallback of the parents traversal), interleaved with Enforce requests (0-3 objects "
         "mixing covered and uncovered ones, through the open transaction and against the committed view) so that a "
         "check follows directly on a change. Non-trivial = at least one Allow and one Deny verdict and a revocation "
         "(unassign / delete role / delete policy / delete subject / abort) after an Allow; distinct by hash.")
@@ -149,7 +150,8 @@ def gen_case(rng):
         # the very next check
         if rng.random() < 0.8:
             ops.append(gen_enforce(rng, subs, pols, in_tx))
-    return {"subjects": [mkid(s) for s in subs], "ops": ops}
+    # flavour: the relationship indexes failed to populate at open, ParentsTraverser runs on its raw scan
+    return {"subjects": [mkid(s) for s in subs], "ops": ops, "scan": rng.random() < 0.3}
 
 
 def gen_cases(rng, tier, n):
@@ -286,7 +288,8 @@ def nontrivial(case, r):
 
 
 def histogram(case, r):
-    ks = ["subjects=%d" % len(case["subjects"]), "ops=%d" % (len(case["ops"]) // 5 * 5)]
+    ks = ["subjects=%d" % len(case["subjects"]), "ops=%d" % (len(case["ops"]) // 5 * 5),
+          "flavour=%s" % ("scan-fallback" if case.get("scan") else "indexed")]
     prev = None
     for o, s in zip(case["ops"], r.get("steps") or []):
         e = s["err"] if (s["err"] in ERR or s["err"] == "denied") else "other"
